@@ -20,6 +20,8 @@ def bounds(tier):
 
 def cases(tier, seed):
     b = bounds(tier)
+    for (m, rows) in ((17, 65537), (70, 20001), (16, 70001), (3, 400003)) + (((33, 100003),) if tier == "thorough" else ()):
+        yield {"m": m, "rows": rows}
     for n in range(b["n"][0], b["n"][1] + 1):
         for alpha in (0.5, 1.0, 1.5):
             for m in (1, 2, 3):
@@ -57,9 +59,39 @@ def _make_recorder():
     return Recorder
 
 
+def _bigbatch(case):
+    """Query batches whose rows x n_estimators product passes 2^20 (block-wise aggregation): predict is still the mean of predict_all."""
+    import numpy
+    from sklearn.linear_model import LinearRegression
+    from mlinsights.mlmodel import IntervalRegressor
+    m, rows = case["m"], case["rows"]
+    viol = []
+    rs = numpy.random.RandomState(7)
+    X = rs.uniform(-1, 1, size=(40, 2))
+    y = X[:, 0] * 2 - X[:, 1] + rs.normal(size=40) * 0.5
+    numpy.random.seed(0)
+    model = IntervalRegressor(estimator=LinearRegression(), n_estimators=m, alpha=1.0).fit(X, y)
+    Q = rs.uniform(-2, 2, size=(rows, 2))
+    pa = numpy.asarray(model.predict_all(Q))
+    pm = numpy.asarray(model.predict(Q))
+    ps = numpy.asarray(model.predict_sorted(Q))
+    cond = "n>=2,rows x n_estimators = 2^%d" % int(numpy.log2(rows * m))
+    exp_all = numpy.column_stack([e.predict(Q) for e in model.estimators_])
+    if pa.shape != exp_all.shape or not numpy.array_equal(pa, exp_all):
+        viol.append({"sig": "IntervalRegressor|predict_all != individual predictions|" + cond, "msg": repr(case)})
+    if pm.shape != (rows,) or numpy.abs(pm - exp_all.mean(axis=1)).max() > 1e-12:
+        viol.append({"sig": "IntervalRegressor|predict != mean of individual predictions|" + cond,
+                     "msg": "max difference %r %r" % (float(numpy.abs(pm - exp_all.mean(axis=1)).max()) if pm.shape == (rows,) else pm.shape, case)})
+    if ps.shape != exp_all.shape or not numpy.array_equal(ps, numpy.sort(exp_all, axis=1)):
+        viol.append({"sig": "IntervalRegressor|predict_sorted != row-wise sorted predictions|" + cond, "msg": repr(case)})
+    return {"viol": viol, "nontrivial": True, "states": 1, "transitions": rows, "outcome": ("big", m, rows)}
+
+
 def run_case(case):
     import numpy
     from mlinsights.mlmodel import IntervalRegressor
+    if "rows" in case:
+        return _bigbatch(case)
 
     Recorder = _make_recorder()
     n, alpha, m, S = case["n"], case["alpha"], case["m"], case["S"]
